@@ -35,6 +35,16 @@ CHECKS = {
         text="Generated-input search: generated multi-model / altloc / insertion-code / close-pair tables are written as PDB and as mmCIF (both null markers, optionally absent occupancies) and read with every model argument; corpus files (NMR ensembles, altloc files) are decoded independently. The returned residues and atoms must equal the expectation computed from the table: best-occupancy copy per name, one survivor of an isolated <0.5 A pair, file order, exact identities and coordinates, requested model only.",
         note=TRUST + "Well-formed input only; occupancy ties and clash clusters of >=3 atoms are checked by validity predicates, not exact expectation.",
         ref="3 C08"),
+    "C09": dict(
+        technique="Hypothesis atom tables through independent emitters: reader fidelity + four write/read round trips compared field by field via a neutral accessor; written PDB text decoded by an independent column slicer and matched against a record grammar",
+        text="Generated-input search: for each generated table (names with primes and leading digits, 1-2 letter / absent elements, charges, icodes, altlocs, negative values, several models and chains) the harness emits PDB and mmCIF itself, reads them with parse_*_atoms, runs PDB->PDB, mmCIF->mmCIF, PDB->mmCIF->PDB and mmCIF->PDB->mmCIF and compares all 16 logical fields and row order; every written PDB text must be 80-column, right-justified where the format says so, with MODEL/ENDMDL around every model and TER after every chain.",
+        note=TRUST + "Only tables within PDB widths (the property's quantifier). Tolerance 5e-4 / 5e-3 on reals.",
+        ref="3 C09"),
+    "C10": dict(
+        technique="Hypothesis atom tables pushed outside PDB limits + compact oversize constructions, against an independent feasibility decision and a renaming-invariant (functional, injective, order and field preserving) + write/read round trip",
+        text="Generated-input search: generated mmCIF/PDB-derived tables with multi-character chains, numbers >9999, serials >99999, insertion codes and several models, plus 62/63/70 chains, 9999/10000 residues per chain and (thorough) 100000 atoms. Feasible => returned table preserves rows, order and all non-identity fields, satisfies the limits, renames chains/residues one-to-one and round-trips through write_pdb/parse_pdb_atoms; infeasible => ValueError only; fitting input => unchanged.",
+        note=TRUST + "The grey zone between the two feasibility predicates is not generated.",
+        ref="3 C10"),
     "C11": dict(
         technique="corpus + Hypothesis-perturbed and multi-model 3D structures against list invariants and an independent BPh/BR / Saenger reference; exhaustive (base, base, LW) grid for the Saenger lookup",
         text="Generated-input search: every interaction list of every analysed model is checked for repetition, self-interaction, membership in the analysed model, orientation and sort order; Saenger classes against a literal 28-class table (complete 7x7x18 grid, pair vs reverse); BPh/BR classes against the classes implied by base-donor atoms within 4.0 A in the analysed model's coordinates, one class per ordered pair.",
